@@ -24,7 +24,7 @@ def loaderTable (l : Nat) (phase : Nat) (n : Name) : LoadRes :=
   | 2, 0 => .src 1 | 2, 1 => .src 5 | 2, 2 => .err | 2, 3 => .src 2 | 2, 4 => .missing
   | 3, 0 => .src 4 | 3, 1 => .src 14 | 3, 2 => .src 13 | 3, 3 => .missing | 3, 4 => .src 16
   | 4, 0 => .src 7 | 4, 1 => .src 10 | 4, 2 => .src 12 | 4, 3 => .src 6 | 4, 4 => .src 17
-  | 5, 0 => .missing | 5, 1 => .src 15 | 5, 2 => .src 9 | 5, 3 => .src 11 | 5, 4 => .src 0
+  | 5, 0 => .panics | 5, 1 => .src 15 | 5, 2 => .src 9 | 5, 3 => .src 11 | 5, 4 => .src 0
   | 6, 0 => .err | 6, 1 => .src 9 | 6, 2 => .missing | 6, 3 => .err | 6, 4 => .src 8
   | 7, 0 => .src 2 | 7, 1 => .src 6 | 7, 2 => .src 16 | 7, 3 => .src 17 | 7, 4 => .src 1
   | _, _ => .missing
@@ -38,6 +38,8 @@ structure DState where
   loaderIds : List Nat
   phase : Nat
   cmp : CmpTable
+  /-- the thread the history runs on -/
+  thread : ThreadState
 
 def initWorld : World := World.init [(1, builtin)] [(1, builtin)] [(1, builtin)]
 
@@ -54,6 +56,7 @@ def showRes : Res → String
   | .found t => s!"s{t.1}@{ltCode t.2}"
   | .notFound => "NF"
   | .loaderError => "E:InvalidOperation"
+  | .panicked => "panic"
 
 def insertSorted (p : Nat × String) : List (Nat × String) → List (Nat × String)
   | [] => [p]
@@ -196,6 +199,19 @@ def stepTok (d : DState) (tok : String) : DState × String :=
     match num 2 with
     | some n => lookup d e n (parseLog f 3)
     | none => (d, "bad-case")
+  | some "pn", some e => guard e fun _ =>
+    -- an operation that unwinds and is caught: nothing of the environment changes; operations 0, 1, 2
+    -- and 13 unwind out of a `Value::from(Serde(..))` conversion (2 and 13 out of a nested one), whose
+    -- guards restore the thread's flag
+    let body : List ConvEv := match num 2 with
+      | some 0 | some 1 => [.park 1, .take, .park 2, .take]
+      | some 2 => [.park 1, .take, .enter, .park 1, .take, .park 2, .take]
+      | some 13 => [.enter, .park 1, .take, .park 2, .take]
+      | _ => []
+    let t' := match num 2 with
+      | some 0 | some 1 | some 2 | some 13 => panickingConversion true d.thread body
+      | _ => d.thread
+    ({ d with thread := t' }, "panic")
   | some "jk", some e => guard e fun _ => (d, "jk")  -- failing compiles/renders do not touch the environment
   | some "th", some e => guard e fun _ =>
     -- the phase ends with a lookup of every name
@@ -215,10 +231,10 @@ def stepTok (d : DState) (tok : String) : DState × String :=
 
 def runCase (cmp : CmpTable) (case : String) : String :=
   let toks := (case.splitOn " ").filter (· ≠ "")
-  let d0 : DState := { w := initWorld, loaderIds := [0], phase := 0, cmp := cmp }
+  let d0 : DState := { w := initWorld, loaderIds := [0], phase := 0, cmp := cmp, thread := ThreadState.clean }
   let (_, outs) := toks.foldl (fun (acc : DState × List String) tok =>
     let (d', r) := stepTok acc.1 tok
-    (d', s!"{r}|{showEnvs d'}" :: acc.2)) (d0, [])
+    (d', s!"{r}~T{b2n (!emitsData d'.thread)}|{showEnvs d'}" :: acc.2)) (d0, [])
   " / ".intercalate outs.reverse
 
 def parseCmp (line : String) : Option ((Nat × Nat) × Bool) :=
